@@ -30,6 +30,28 @@ def bound_names_in(expr):
     return out
 
 
+def clone(node, repl=None):
+    """structural copy of an AST (fields only: no parent links), substituting nodes by id"""
+    repl = repl or {}
+
+    def rec(n):
+        if id(n) in repl:
+            return repl[id(n)]
+        if isinstance(n, ast.AST):
+            new = type(n)()
+            for f, v in ast.iter_fields(n):
+                setattr(new, f, rec(v))
+            for a in ("lineno", "col_offset", "end_lineno", "end_col_offset"):
+                if hasattr(n, a):
+                    setattr(new, a, getattr(n, a))
+            return new
+        if isinstance(n, list):
+            return [rec(x) for x in n]
+        return n
+
+    return rec(node)
+
+
 class Flow:
     def __init__(self, fi):
         self.fi = fi
@@ -54,30 +76,79 @@ class Flow:
             return val  # ("unpack", value_expr, index, n)
         return None
 
+    def _assign_stmts(self, name):
+        """[(stmt, value expr)] plain assignments ``name = value`` in this activation"""
+        out = []
+        for n in self.fi.own_nodes(include_lambdas=False):
+            if isinstance(n, ast.Assign):
+                for t in n.targets:
+                    if isinstance(t, ast.Name) and t.id == name:
+                        out.append((n, n.value))
+                    elif isinstance(t, (ast.Tuple, ast.List)) and any(isinstance(e, ast.Name) and e.id == name for e in ast.walk(t)):
+                        out.append((n, None))
+            elif isinstance(n, ast.AnnAssign) and isinstance(n.target, ast.Name) and n.target.id == name and n.value is not None:
+                out.append((n, n.value))
+            elif isinstance(n, ast.AugAssign) and isinstance(n.target, ast.Name) and n.target.id == name:
+                out.append((n, None))
+            elif isinstance(n, (ast.For, ast.AsyncFor)) and any(isinstance(e, ast.Name) and e.id == name for e in ast.walk(n.target)):
+                out.append((n, None))
+            elif isinstance(n, (ast.With, ast.AsyncWith)):
+                for it in n.items:
+                    if it.optional_vars is not None and any(isinstance(e, ast.Name) and e.id == name for e in ast.walk(it.optional_vars)):
+                        out.append((n, None))
+        return out
+
+    def reaching_def(self, name, at):
+        """the defining expression of ``name`` that reaches node ``at``: the last assignment before
+        ``at`` in source order, provided it dominates ``at`` (same or enclosing block); else None"""
+        pos = (getattr(at, "lineno", None), getattr(at, "col_offset", 0))
+        if pos[0] is None:
+            return self.single_def(name)
+        before = [(s, v) for s, v in self._assign_stmts(name) if (s.lineno, s.col_offset) < pos and not _contains(s, at)]
+        if not before:
+            return None
+        s, v = max(before, key=lambda sv: (sv[0].lineno, sv[0].col_offset))
+        if v is None:
+            return None
+        # dominance: the block holding s must (transitively) hold ``at``
+        block_owner = getattr(s, "_parent", None)
+        anc = [at] + list(parents(at))
+        if not any(a is block_owner for a in anc):
+            return None
+        # s must not sit in a different branch of the owner than ``at`` (e.g. if-body vs else)
+        for field in ("body", "orelse", "finalbody", "handlers"):
+            blk = getattr(block_owner, field, None)
+            if isinstance(blk, list) and any(x is s for x in blk):
+                if not any(any(a is x for a in anc) for x in blk):
+                    return None
+        # a loop carrying a later redefinition would also reach: refuse
+        later = [x for x, _ in self._assign_stmts(name) if (x.lineno, x.col_offset) > pos]
+        for x in later:
+            for p in parents(x):
+                if isinstance(p, (ast.For, ast.While, ast.AsyncFor)) and any(a is p for a in anc):
+                    return None
+        return v
+
     def expand(self, expr, depth=8, stop=()):
-        """copy of expr with single-assignment locals replaced by their definitions"""
-        expr = copy.deepcopy(expr)
-        return self._expand(expr, depth, set(stop))
+        """copy of expr with locals replaced by their (reaching) definitions"""
+        return self._expand(expr, depth, set(stop), expr)
 
-    def _expand(self, expr, depth, stop):
+    def _expand(self, expr, depth, stop, at):
         if depth <= 0:
-            return expr
+            return clone(expr)
         bound = bound_names_in(expr)
-
         flow = self
-
-        class T(ast.NodeTransformer):
-            def visit_Name(self, n):
-                if not isinstance(n.ctx, ast.Load) or n.id in bound or n.id in stop:
-                    return n
+        repl = {}
+        for n in ast.walk(expr):
+            if isinstance(n, ast.Name) and isinstance(n.ctx, ast.Load) and n.id not in bound and n.id not in stop:
                 if n.id in flow.fi.params and n.id not in flow.lb:
-                    return n
-                d = flow.single_def(n.id)
+                    continue
+                where = n if hasattr(n, "lineno") and getattr(n, "_parent", None) is not None else at
+                d = flow.reaching_def(n.id, where)
                 if d is None:
-                    return n
-                return flow._expand(copy.deepcopy(d), depth - 1, stop | {n.id})
-
-        return T().visit(expr)
+                    continue
+                repl[id(n)] = flow._expand(d, depth - 1, stop | {n.id}, d)
+        return clone(expr, repl)
 
     def deps(self, expr, _seen=None):
         """free names (params, globals, multiply-defined locals) expr depends on,
